@@ -347,6 +347,14 @@ fn check_node(n: &Node, pr: &Progs) -> Vec<(String, String, String)> {
         if *b.fan_rpm() != 0 {
             probs.push(format!("fan {} rpm", b.fan_rpm()));
         }
+        // the fan's period register is a function of DAC1 (now 0): 255, by getter and as read at 0xF2
+        if b.get_fan_period() != 255 || r.bus().read(0xF2) != 255 {
+            probs.push(format!("fan period register {} / read(0xF2) {} (255 with DAC1 = 0)", b.get_fan_period(), r.bus().read(0xF2)));
+        }
+        // the output ports read back as cleared wherever they can be observed
+        if r.bus().read(0xF0) != *b.digital_input1() {
+            probs.push(format!("read(0xF0) {:#04x} is not the input port {:#04x}", r.bus().read(0xF0), b.digital_input1()));
+        }
         if *b.uio_dir() != [false; 3] {
             probs.push(format!("UIO directions {:?}", b.uio_dir()));
         }
@@ -381,6 +389,64 @@ fn check_node(n: &Node, pr: &Progs) -> Vec<(String, String, String)> {
                             format!("after master_reset the interrupt control register reads {:#04x}, but a change of {} raised the board's interrupt flags ({:#06b} -> {:#06b})", x.bus().board().daicr().bits(), name, before, x.bus().read(0xF3)),
                             "MasterReset".into(),
                         ));
+                        break;
+                    }
+                }
+            }
+        }
+        // differential future of the board: after the reset, with its physical inputs applied once more (so
+        // that both sides evaluate their comparators), it must answer a fixed sequence of port writes and
+        // input changes exactly like a new board that was given the same inputs
+        {
+            use emulator_2a_lib::machine::Bus;
+            let src = r.bus().board().clone();
+            let mut a = r.bus().clone();
+            let mut f = Bus::new();
+            let ext = src.dasr().bits();
+            for x in [&mut a, &mut f] {
+                let b = x.board_mut();
+                b.set_digital_input1(*src.digital_input1());
+                b.set_temp(*src.temp());
+                b.set_analog_input1(src.analog_inputs()[0]);
+                b.set_analog_input2(src.analog_inputs()[1]);
+                b.set_jumper1(ext & 0x40 != 0);
+                b.set_jumper2(ext & 0x80 != 0);
+                b.set_universal_input_output1(ext & 0x01 != 0);
+                b.set_universal_input_output2(ext & 0x02 != 0);
+                b.set_universal_input_output3(ext & 0x04 != 0);
+                x.write(0xF3, 0);
+            }
+            // (the FAN status bit is sticky: set by any write to 0xF0 and by nothing else, see refmodel/FROZEN.md;
+            // it is not part of the statement and masked here; so is the SOURCE flag of the interrupt status, which
+            // nothing clears - the statement has master reset clear the interrupt *control*, not the status)
+            let io = |x: &Bus| -> [u8; 4] { [x.read(0xF0), x.read(0xF1) & !0x20, x.read(0xF2), x.read(0xF3) & !0x01] };
+            if io(&a) != io(&f) {
+                bad.push(("master-reset/board-differs-from-a-new-one".into(), format!("after master_reset and re-applying its inputs the board reads {:02x?} at 0xF0-0xF3, a new board with the same inputs {:02x?}", io(&a), io(&f)), "MasterReset".into()));
+            } else {
+                type Probe = fn(&mut Bus);
+                let probes: [(&str, Probe); 16] = [
+                    ("write(0xF0,200)", |x| x.write(0xF0, 200)),
+                    ("write(0xF1,100)", |x| x.write(0xF1, 100)),
+                    ("write(0xF2,0xC4)", |x| x.write(0xF2, 0xC4)),
+                    ("analog input 1 = 4.0", |x| x.board_mut().set_analog_input1(4.0)),
+                    ("analog input 1 = 0.5", |x| x.board_mut().set_analog_input1(0.5)),
+                    ("write(0xF3,0)", |x| x.write(0xF3, 0)),
+                    ("write(0xF2,0xC9)", |x| x.write(0xF2, 0xC9)),
+                    ("jumper 1 toggled", |x| { let j = x.read(0xF1) & 0x40 != 0; x.board_mut().set_jumper1(!j) }),
+                    ("jumper 1 toggled back", |x| { let j = x.read(0xF1) & 0x40 != 0; x.board_mut().set_jumper1(!j) }),
+                    ("write(0xF2,0x85)", |x| x.write(0xF2, 0x85)),
+                    ("write(0xF2,0x02)", |x| x.write(0xF2, 0x02)),
+                    ("UIO1 toggled", |x| { let j = x.read(0xF1) & 0x01 != 0; x.board_mut().set_universal_input_output1(!j) }),
+                    ("UIO2 toggled", |x| { let j = x.read(0xF1) & 0x02 != 0; x.board_mut().set_universal_input_output2(!j) }),
+                    ("write(0xF0,0)", |x| x.write(0xF0, 0)),
+                    ("temperature = 3.0", |x| x.board_mut().set_temp(3.0)),
+                    ("write(0xF1,255)", |x| x.write(0xF1, 255)),
+                ];
+                for (name, p) in probes {
+                    p(&mut a);
+                    p(&mut f);
+                    if io(&a) != io(&f) {
+                        bad.push(("master-reset/board-differs-from-a-new-one".into(), format!("after master_reset the board answers {} with {:02x?} at 0xF0-0xF3, a new board with the same inputs with {:02x?}", name, io(&a), io(&f)), "MasterReset".into()));
                         break;
                     }
                 }
